@@ -1492,7 +1492,12 @@ class Interp:
             return c.apply(self, f, args, kwargs, ctx)
         return self.exec_function(f, args, kwargs, ctx)
 
+    _KNOWN_DECORATORS = {"property", "staticmethod", "final", "primitive", "unique", "abstractmethod"}
+
     def exec_function(self, f, args, kwargs, ctx):
+        for d in f.decorators:
+            if d.split("(")[0].split(".")[-1] not in self._KNOWN_DECORATORS and not d.startswith("dataclass"):
+                raise Unsupported(f"decorator @{d} on {f.qualname} is not modelled (it may add state or change the call)")
         ctx.depth += 1
         if ctx.depth > 40:
             raise Unsupported("call depth > 40")
